@@ -666,7 +666,11 @@ func (w *world) fixpoint() {
 			if !fn.reach {
 				continue
 			}
+			oldRel := relFacts(fn.exitMust)
 			w.analyze(fn, false)
+			if !relFacts(fn.exitMust).eq(oldRel) {
+				changed = true
+			}
 			for _, cs := range fn.calls {
 				c := cs.callee
 				nm := meet(c.entryMust, lockFacts(cs.must))
